@@ -156,11 +156,20 @@ def refuses_duplicates(tree: ast.Module) -> bool:
         raise Unsupported("parallelise not found")
     for st in fn.body:
         if isinstance(st, ast.If) and ast.unparse(st.test) == "cache is not None":
-            src = [ast.unparse(x) for x in st.body]
+            # the local holding the keys is identified by its definition (`[k for k, _ in inputs]`, any names), not by
+            # its name: a renamed local is the same check
+            defined: dict[str, int] = {}
             for i, x in enumerate(st.body):
-                if (isinstance(x, ast.If) and ast.unparse(x.test) == "len(set(keys)) != len(keys)"
-                        and any(isinstance(y, ast.Raise) for y in x.body)
-                        and "keys = [k for k, _ in inputs]" in src[:i]):
+                if isinstance(x, ast.Assign) and len(x.targets) == 1 and isinstance(x.targets[0], ast.Name):
+                    v = x.value
+                    if (isinstance(v, ast.ListComp) and len(v.generators) == 1 and not v.generators[0].ifs
+                            and ast.unparse(v.generators[0].iter) == "inputs"
+                            and isinstance(v.generators[0].target, ast.Tuple) and len(v.generators[0].target.elts) == 2
+                            and isinstance(v.elt, ast.Name) and isinstance(v.generators[0].target.elts[0], ast.Name)
+                            and v.elt.id == v.generators[0].target.elts[0].id):
+                        defined.setdefault(x.targets[0].id, i)
+                if (isinstance(x, ast.If) and any(isinstance(y, ast.Raise) for y in x.body)
+                        and any(ast.unparse(x.test) == f"len(set({k})) != len({k})" and at < i for k, at in defined.items())):
                     return True
             return False
     raise Unsupported("parallelise has no `if cache is not None:` block")
